@@ -694,6 +694,69 @@ def check_key_kinds(chk, F):
     chk.floor(rid, "predicate values", n, 60)
 
 
+# ---- R12.10 what a bare output may hold ----------------------------------------------------------------------------------------------
+
+def check_other_top_level(chk, F):
+    from ..interp import Machine, Adt, Term, PyVec, Panic
+    from ..report import Unsupported
+    from .. import model
+    from . import c19
+    rid = "R12.10"
+    chk.rule(rid, "ScriptContext::other_top_level_checks, evaluated for every context on every fragment kind at the top level "
+                  "(and, below c:, on every key fragment): a bare output holds only the standard bare scripts - pay-to-pubkey "
+                  "(c:pk_k), pay-to-pubkey-hash (c:pk_h / c:expr_raw_pkh) and multi / sortedmulti with at most 3 keys (every k) - "
+                  "and the other contexts add no restriction here")
+    T = model.TERMINAL
+    MS = model.MS
+    n = 0
+    for ctx in ("BareCtx", "Legacy", "Segwitv0", "Tap"):
+        p = "<miniscript::context::%s as miniscript::context::ScriptContext>::other_top_level_checks" % ctx
+        if p not in F.bodies:
+            p = "miniscript::context::ScriptContext::other_top_level_checks"      # the trait's default
+            if p not in F.bodies:
+                chk.fail(rid, "anchor|" + ctx, "other_top_level_checks of %s not found" % ctx, kind="unanalysable")
+                continue
+        chk.saw(p)
+        m = Machine(F, strict=True)
+
+        def ms_of(node):
+            return Adt(MS, "Miniscript", {"node": node, "ty": Term("ty"), "ext": Term("ext"), "phantom": ()})
+        cases = []
+        for v in model.variants(F):
+            if v in ("Multi", "SortedMulti", "MultiA", "SortedMultiA"):
+                for nk in range(1, 6):
+                    for k in sorted({1, nk}):
+                        node = c19.mk_term(F, v, n=nk, k=k)
+                        cases.append(("%s(%d of %d)" % (v, k, nk), node, v in ("Multi", "SortedMulti") and nk <= 3))
+            elif v == "Check":
+                for inner in model.variants(F):
+                    if inner in ("Multi", "SortedMulti", "MultiA", "SortedMultiA", "Thresh"):
+                        continue
+                    node = c19.mk_term(F, "Check", n=3, k=2)
+                    fld = [k_ for k_, x in node.fields.items() if isinstance(x, Adt) and x.path == MS][0]
+                    node.fields[fld] = ms_of(c19.mk_term(F, inner, n=3, k=2))
+                    cases.append(("c:%s" % inner, node, inner in ("PkK", "PkH", "RawPkH")))
+            else:
+                cases.append((v, c19.mk_term(F, v, n=3, k=2), False))
+        bad = []
+        try:
+            for label, node, bare_ok in cases:
+                r = m.call_callee({"def": p, "resolved": p, "name": "other_top_level_checks", "targs": ["PK"],
+                                   "self_ty": "miniscript::context::" + ctx}, [ms_of(node)])
+                n += 1
+                want = bare_ok if ctx == "BareCtx" else True
+                if (r.variant == "Ok") != want:
+                    bad.append("%s at the top level is %s" % (label, "accepted" if r.variant == "Ok" else "refused (%s)" % repr(r)[:60]))
+                elif not want and "NonStandardBareScript" not in repr(r):
+                    bad.append("%s is refused with %s" % (label, repr(r)[:80]))
+            chk.obligation(rid, not bad, ctx, "%d fragment(s); first: %s" % (len(bad), bad[0] if bad else ""), F.fns[p]["span"], detail=bad[:10])
+        except Unsupported as e:
+            chk.fail(rid, "unanalysable:" + ctx, "unanalysable: %s" % e, where=e.where, kind="unanalysable")
+        except Panic as e:
+            chk.fail(rid, ctx, "panic: %s" % e, F.fns[p]["span"])
+    chk.floor(rid, "cases", n, 250)
+
+
 def run(chk):
     F = chk.facts()
     chk.explanation = (
@@ -727,3 +790,4 @@ def run(chk):
     chk.guard("R12.8", "num-size", c04.check_num_size, al, F)
     chk.guard("R12.8", "pk-len", c04.check_pk_len, al, F)
     chk.guard("R12.9", "key-kinds", check_key_kinds, chk, F)
+    chk.guard("R12.10", "bare-standardness", check_other_top_level, chk, F)
